@@ -106,7 +106,7 @@ theorem applyCmd_keysOK {c : Config} {s : NodeState} {now : Nat} {e : Entry} {s'
   | membership a n =>
     simp only [applyCmd, Option.some.injEq, Prod.mk.injEq] at h
     obtain ⟨rfl, _, _⟩ := h
-    exact changeCluster_keysOK s now a n hk
+    exact hk
 
 theorem applyLoop_keysOK (c : Config) (now : Nat) (es : List Entry) :
     ∀ s, KeysOK s → KeysOK (applyLoop c now es s).1 := by
